@@ -138,7 +138,7 @@ pub fn gen_char(src: &mut Src) -> char {
         2 => *src.pick(&['é', 'ß', 'λ', 'Ж', 'א', '\u{301}', '\u{200d}']),
         3 => *src.pick(&['日', '本', '語', '한', '\u{ffff}', '\u{fffd}']),
         4 => *src.pick(&['😀', '𝄞', '\u{10000}', '\u{10ffff}', '🇺']),
-        _ => *src.pick(&['\n', '\t', '\r', '\u{0}', '\u{1f}', '\u{7f}', '\u{8}', '\u{c}']),
+        _ => *src.pick(&['\n', '\t', '\r', '\u{0}', '\u{1f}', '\u{7f}', '\u{8}', '\u{c}', '\u{80}', '\u{85}', '\u{9f}', '\u{a0}', '\u{ad}', '\u{2028}', '\u{feff}']),
     }
 }
 
@@ -225,5 +225,43 @@ pub fn is_int_valued(n: &N) -> bool {
     match n {
         N::Int(_) => true,
         N::F(f) => f.fract() == 0.0,
+    }
+}
+
+/// Replicate the elements of one array of the document (top two levels) up to
+/// a large length: crosses count thresholds inside projections and functions.
+pub fn scale_some_array(doc: &mut J, src: &mut Src, max: usize) {
+    fn grow(a: &mut Vec<J>, n: usize) {
+        if a.is_empty() {
+            a.push(J::Obj([("a".to_string(), J::int(1))].into_iter().collect()));
+            a.push(J::int(2));
+        }
+        let base = a.clone();
+        let mut i = 0;
+        while a.len() < n {
+            a.push(base[i % base.len()].clone());
+            i += 1;
+        }
+    }
+    let n = match src.below(3) {
+        0 => 100 + src.below(200),
+        1 => 1000 + src.below(100),
+        _ => src.size(max).max(64),
+    };
+    match doc {
+        J::Arr(a) => grow(a, n),
+        J::Obj(m) => {
+            let keys: Vec<String> = m.iter().filter(|(_, v)| matches!(v, J::Arr(_))).map(|(k, _)| k.clone()).collect();
+            if let Some(k) = keys.get(src.below(keys.len().max(1))) {
+                if let Some(J::Arr(a)) = m.get_mut(k) {
+                    grow(a, n);
+                }
+            } else {
+                let mut a = vec![];
+                grow(&mut a, n);
+                m.insert("a".to_string(), J::Arr(a));
+            }
+        }
+        _ => {}
     }
 }
